@@ -57,6 +57,8 @@ def h_listby(n, mixed, two, rev = False):
         for p in range(len(r) - 1):
             c.check('rows-sorted-by-key', S.cmp(tuple(r[b][p] for b in by), tuple(r[b][p + 1] for b in by)) < 0)
         u = r.unlist()
+        c.check('unlist-returns-a-table', type(u) is type(d))
+        if type(u) is not type(d): return
         zs = list(u['z']) if len(u) else []
         c.check('unlist-restores-all-rows', sorted(zs) == list(range(n)) and (n == 0 or set(u.keys()) == set(cols.keys())))
         for p in range(len(zs) - 1):
@@ -113,9 +115,32 @@ def h_pivot(n, agg):
         c.check('operand-unchanged', unchanged(d, {k: v for k, v in cols.items() if k != 'k'}))
     return h
 
+AGGN = [('len', len), ('last', lambda v: v[-1]), ('first', lambda v: v[0]), ('tuple', tuple)]
+def h_pivot_none(n, a):
+    """z values that are None take part in the aggregation like any other value"""
+    def h(c):
+        from pyg_base import dictable
+        ks = [c.int('k%d.i' % i, -4, 4) for i in range(n)]; ys = [c.pick('y%d' % i, ['u', 'w']) for i in range(n)]
+        zs = [c.pick('z%d' % i, [i + 10, None]) for i in range(n)]
+        d = dictable(key = list(ks), y = list(ys), z = list(zs))
+        cols = dict(k = ks); gs = groups(cols, ['k'], n); labels = sorted(set(ys)); name, agg = AGGN[a]
+        c.cover('a-None-among-duplicates', any(zs[i] is None for g in gs for i in g if sum(1 for j in g if ys[j] == ys[i]) > 1))
+        r = d.pivot('key', 'y', 'z', agg)
+        c.check('one-row-per-x-key-and-one-column-per-label', len(r) == len(gs) and sorted(k for k in r.keys() if k != 'key') == labels)
+        for p in range(len(r)):
+            members = [g for g in gs if keyeq(r['key'][p], ks[g[0]])]
+            c.check('x-key-is-one-of-the-groups', len(members) == 1)
+            for lab in labels:
+                vals = [zs[i] for i in members[0] if ys[i] == lab]
+                c.check('cell-aggregates-exactly-the-z-values-of-that-x-and-y-None-included', r[lab][p] == (agg(vals) if vals else None))
+    return h
+
 def obligations(tier):
     q = tier == 'quick'; N = 3 if q else 4
     obs = []
+    for n in range(2, N + 1):
+        for a, (nm, _) in enumerate(AGGN):
+            obs.append(Ob('pivot.none-z.%d.%s' % (n, nm), h_pivot_none(n, a), setup = setup, budget_s = 300 if n < 4 else 1500, desc = 'pivot of %d rows whose z may be None, aggregation %s: None values are aggregated like any other' % (n, nm)))
     for n in range(N + 1):
         obs.append(Ob('listby.int.%d' % n, h_listby(n, False, False), setup = setup, budget_s = 300 if n < 4 else 1500, desc = 'listby/unlist on %d rows, int key' % n))
         obs.append(Ob('listby.two-keys.%d' % n, h_listby(n, False, True), setup = setup, budget_s = 300 if n < 4 else 1500, desc = 'listby/unlist on %d rows, two key columns' % n))
